@@ -23,6 +23,7 @@ def generate(contract, mode_name, repo=None):
     mode = contract.modes[mode_name]
     ex = sym.Explorer()
     obs, covered, npaths, ninfeasible = [], set(), 0, 0
+    entry_pc = None
     reach = {}
     while True:
         prefix = ex.next_prefix()
@@ -30,6 +31,8 @@ def generate(contract, mode_name, repo=None):
             break
         m = sym.Machine(node, contract, mode, ex, prefix, callees=contract.callees, globs=contract.globs)
         status = m.run()
+        if npaths == 0 and getattr(m, "entry_pc", None) is not None:
+            entry_pc = m.entry_pc
         npaths += 1
         if status == "infeasible":
             ninfeasible += 1
@@ -50,6 +53,14 @@ def generate(contract, mode_name, repo=None):
         out.append({"group": full, "name": "%s@%d" % (full, seen[full]), "smt2": None if trivial else s.to_smt2(),
                     "trivial": trivial, "path": ob.path, "line": ob.line, "note": ob.note,
                     "contract": contract.name, "mode": mode_name})
+    # vacuity guard: the precondition (requires + axioms + assumed lemmas) of the mode must not be contradictory
+    if entry_pc is not None:
+        sv = z3.Solver()
+        for h in entry_pc:
+            sv.add(h)
+        out.append({"group": "%s/vacuity/precondition-is-satisfiable" % prefix_name, "name": "%s/vacuity/precondition-is-satisfiable" % prefix_name,
+                    "smt2": sv.to_smt2(), "trivial": False, "path": [], "line": 0, "note": "must NOT be unsat", "contract": contract.name, "mode": mode_name,
+                    "expect": "satisfiable"})
     return {"contract": contract.name, "mode": mode_name, "info": info, "obligations": out,
             "covered": sorted(covered), "paths": npaths, "infeasible_paths": ninfeasible,
             "gen_seconds": time.time() - t0}
@@ -106,6 +117,14 @@ if os.environ.get("VERIF_TIER") == "thorough":
 
 def discharge(ob):
     """ob: dict from generate().  Returns dict(status, backend, seconds, model)"""
+    if ob.get("expect") == "satisfiable":
+        t0 = time.time()
+        try:
+            r, model, reason = _z3_attempt(ob["smt2"], 3000, {})
+        except z3.Z3Exception as e:
+            r = "unknown"
+        # sat or unknown (quantifiers) are fine; unsat means the contract is vacuous
+        return {"status": "vacuous" if r == "unsat" else "discharged", "backend": "z3-sat-check:%s" % r, "seconds": round(time.time() - t0, 4), "model": None}
     if ob["trivial"]:
         return {"status": "discharged", "backend": "simplifier", "seconds": 0.0, "model": None}
     t0 = time.time()
